@@ -12,6 +12,7 @@ import itertools
 import json
 import sys
 import threading
+import time
 import types
 
 import numpy as np
@@ -296,7 +297,10 @@ def run(ctx):
     total = 0
     fails = 0
     explained = 0
+    stuck_runs = 0
     for _ in range(ncases):
+        if stuck_runs >= 3:
+            break        # threads that block each other for good: every further schedule would only wait for its time limit
         case = None
         while case is None:
             case = gen_case(ctx.rng)
@@ -304,6 +308,8 @@ def run(ctx):
         allowed = {json.dumps([per, final]) for _, per, final in serial}
         make = make_registry_env(case)
         for s in schedules_for(case, ctx.rng, nsched):
+            if stuck_runs >= 3:
+                break
             results = None
             for attempt in range(3):
                 try:
@@ -313,6 +319,7 @@ def run(ctx):
                     err = str(e)
             if results is None:
                 ctx.report({"kind": "schedule_stuck"}, {"case": case, "schedule": s, "detail": err})
+                stuck_runs += 1
                 continue
             total += 1
             got = json.dumps([norm(results), final])
@@ -329,15 +336,20 @@ def run(ctx):
     # a lookup that rescans sys.modules, pre-empted at every k-th line by a thread that imports modules
     race_runs = 0
     for case in import_race_cases():
+        if stuck_runs >= 6:
+            break
         serial = model_serial(ctx.model, case)
         allowed = {json.dumps([per, final]) for _, per, final in serial}
         make = make_registry_env(case)
-        for k in (list(range(1, 60)) if quick else list(range(1, 200))) + [400, 800, 1200]:
+        for k in ([5, 10, 20, 28, 30, 32, 40, 60, 100, 200] if quick else list(range(1, 200))) + [400, 800, 1200]:
             sched_k = [0] * k + [1] * 40
             try:
                 results, final, steps, trace = run_schedule(case["programs"], sched_k, make)
             except Stuck as e:
                 ctx.report({"kind": "schedule_stuck"}, {"case": case, "schedule": sched_k, "detail": str(e)})
+                stuck_runs += 1
+                if stuck_runs >= 6:
+                    break
                 continue
             race_runs += 1
             total += 1
@@ -430,8 +442,9 @@ def run_calls(programs, points, order_seed, backend_blocks=None):
     ths = [threading.Thread(target=worker, args=(i,), daemon=True) for i in range(n)]
     for t in ths:
         t.start()
+    deadline = time.time() + 90.0            # (a case takes a few seconds; threads that wait for each other never finish)
     for t in ths:
-        t.join(120.0)
+        t.join(max(0.1, deadline - time.time()))
     stuck = any(t.is_alive() for t in ths)
     return results, state["switches"], stuck
 
@@ -509,7 +522,15 @@ def run_call_mode(ctx):
     for programs, points, seed in cases:
         expected = [[alone[key_of(it)] for it in prog] for prog in programs]
         items.append((programs, expected, points, seed))
-    res = common.pmap(_call_case, items, procs=4)
+    # in portions: when threads block each other for good, every further case would only wait for its time limit
+    res, stuck = [], 0
+    for i in range(0, len(items), 40):
+        part = common.pmap(_call_case, items[i:i + 40], procs=8 if i == 0 else 4)
+        res.extend(part)
+        stuck += sum(1 for _, viol in part for tags, _ in viol if tags.get("kind") == "threads_stuck")
+        if stuck >= 3:
+            break
+    cases = cases[:len(res)]
     switches = 0
     for (programs, points, seed), (sw, viol) in zip(cases, res):
         switches += sw
@@ -680,8 +701,8 @@ def single_preemption(body_a, body_b, pause_index, suffixes, hot_only=False, pau
     tb, ta = threading.Thread(target=run_b, daemon=True), threading.Thread(target=run_a, daemon=True)
     tb.start()
     ta.start()
-    tb.join(180.0)
-    ta.join(180.0)
+    tb.join(60.0)
+    ta.join(60.0)
     return res.get("a", ("exc", "STUCK", "", "")), res.get("b", ("exc", "STUCK", "", "")), count[0]
 
 
@@ -789,6 +810,27 @@ def _preempt_case(item):
             if r[0] != "ok" or r[1].shape != exp.shape or not np.array_equal(r[1], exp):
                 out.append(({"kind": "first_time_call_fails_next_to_another", "exc": r[1] if r[0] == "exc" else "wrong value", "who": who},
                             {"stopped_before": list(pause), "call": f"einx.sum('{c[0]}', array of shape {c[1].shape}, b={c[2]['b']})", "detail": str(r)[:400]}))
+        return n, out
+    if kind == "identical_failing_calls_every_line":
+        # two threads make the SAME first-time call, and it fails while it is traced (7 is no multiple of b = 2): one is stopped before a
+        # source line, the other runs to its end in between; each must get the error the call raises alone - also when repeated
+        n1 = 2 + 2 * k
+        x = np.arange(n1 * 7, dtype=np.int64).reshape(n1, 7)
+
+        def failing():
+            return call("sum", "a (b c) -> c b", x, b=2)
+        ra, rb, n = single_preemption(failing, failing, None, ("",), pause_line=tuple(pause))
+        later = []
+        for _ in range(2):
+            try:
+                later.append(failing())
+            except BaseException as e:  # noqa: BLE001
+                later.append(("exc", common.classify_exc(e), common.exc_site(e), str(e)[:300]))
+        for who, r in (("stopped thread", rb), ("other thread", ra), ("repeat afterwards", later[0]), ("repeat afterwards", later[1])):
+            if r[0] != "exc" or r[1] != "AxisSizeError":
+                out.append(({"kind": "identical_failing_calls_differ_from_the_call_alone", "outcome": r[1] if r[0] == "exc" else "value", "who": who},
+                            {"stopped_before": list(pause), "call": f"einx.sum('a (b c) -> c b', array of shape {x.shape}, b=2)  (AxisSizeError alone)",
+                             "detail": str(r)[:400]}))
         return n, out
     if kind == "first_time_factory_calls_every_line":
         # the same with a tensor factory that asks for the call's signature: each thread's factory is told about its own call
@@ -917,7 +959,23 @@ def run_preemption_mode(ctx):
     for fl in flines:
         items.append(("first_time_factory_calls_every_line", k, fl))
         k += 1
-    res = common.pmap(_preempt_case, items, procs=8)
+    # identical failing first-time calls: the lines of the cache / public layer and of the solver (every line in the thorough tier)
+    ilines = [fl for fl in every if not quick or fl[0].endswith(("util/lru_cache.py", "frontend/api.py")) or "namedtensor/solve.py" in fl[0]]
+    stats["preemption_points_identical_failing_calls_every_line"] = len(ilines)
+    for fl in ilines:
+        items.append(("identical_failing_calls_every_line", k, fl))
+        k += 1
+    # in portions: threads that wait for each other for good (each such case costs its full time limit) end the sweep early
+    res, stuck = [], 0
+    bounds = [0, 32] + list(range(192, len(items) + 160, 160))
+    for lo, hi in zip(bounds, bounds[1:]):
+        part = common.pmap(_preempt_case, items[lo:hi], procs=8)
+        res.extend(part)
+        stuck += sum(1 for _, viol in part for tags, _ in viol if "STUCK" in json.dumps(tags))
+        if stuck >= 3:
+            break
+    stats["preemption_sweep_ended_early_after_stuck_cases"] = stuck >= 3
+    items = items[:len(res)]
     for it, (n, viol) in zip(items, res):
         for tags, payload in viol:
             ctx.report(tags, {**payload, "case": list(it)})
